@@ -16,8 +16,9 @@ NoSeqOver(S) == UNION { UNION { { SV(Ents(f, D, NodeOrder)), SV(Ents(f, D, Rev(N
                                            Cardinality({ n \in D : g[n] = NoSeq }) = 1 } } :
                         D \in SUBSET Nodes }
 \* an entry without node id in front of a plain vector with at most one entry
-NoIdOver(S) == UNION { { SV(<<[id |-> NoId, seq |-> x]>> \o Ents(f, D, NodeOrder)) : f \in [D -> S] } :
-                       D \in { E \in SUBSET Nodes : Cardinality(E) <= 1 }, x \in {NoSeq, MaxSeq} }
+NoIdOver(S) == UNION { { SV(<<[id |-> ix[1], seq |-> ix[2]]>> \o Ents(f, D, NodeOrder)) : f \in [D -> S] } :
+                       D \in { E \in SUBSET Nodes : Cardinality(E) <= 1 },
+                       ix \in {<<NoId, NoSeq>>, <<NoId, MaxSeq>>, <<RootId, MaxSeq>>} }
 Malformed == { [k |-> kk, es |-> <<>>] : kk \in {"empty", "garbage", "nowrapper", "badname", "unsigned"} }
 
 PacketsFull == PlainOver(0..MaxSeq) \cup NoSeqOver(0..MaxSeq) \cup NoIdOver(0..MaxSeq) \cup Malformed
